@@ -11,14 +11,16 @@ Definition crit (t : lo) : bool :=
   match l_kind t, l_pc t with
   | KAct _ _ _, (PMain | PGlob | PCleanup | PIdxL | PIdxT | PUpdCode | PUpdId | PRbL | PRbT | PRbGlob | PRbMain
                 | PRelease _ | PDone (ROk _)) => true
-  | KRev, (PUpdCode | PUpdId | PRelease _) => true
+  | KRev, (PUpdCode | PUpdId | PRelease _ | PDone RRevoked) => true
   | _, _ => false
   end.
 
-(* past connCode.Activate: the only threads that can (or did) return success *)
+(* the only threads that can still write (or have written) the code record: an activator past connCode.Activate,
+   a revoker past its claim.  At most one of them ever exists, across expiry as well. *)
 Definition can_win (t : lo) : bool :=
   match l_kind t, l_pc t with
   | KAct _ _ _, (PUpdCode | PUpdId | PDone (ROk _)) => true
+  | KRev, (PUpdCode | PUpdId | PDone RRevoked) => true
   | _, _ => false
   end.
 
@@ -57,7 +59,7 @@ Lemma step_facts (P : params) (t : lo) (s : sh) (t' : lo) (s' : sh) :
   /\ (crit t = false -> crit t' = true -> claim s = false /\ claim s' = true)
   /\ (claim s = true -> claim s' = false -> expired s' = false -> crit t = true /\ crit t' = false)
   /\ (crit t = true -> crit t' = true -> claim s' = claim s)
-  /\ (can_win t = false -> can_win t' = true -> expired s = false /\ crit t = true)
+  /\ (can_win t = false -> can_win t' = true -> expired s = false /\ (crit t = true \/ claim s = false))
   /\ ((mains s' = mains s /\ has_rec t' = has_rec t)
       \/ (mains s' = mk_rec P t :: mains s /\ has_rec t = false /\ has_rec t' = true /\ exists l la ok, l_kind t = KAct l la ok)
       \/ (mains s' = filter (not_me (l_me t)) (mains s) /\ has_rec t' = false))
@@ -192,12 +194,14 @@ Section Inv.
         destruct (nth_upd_cases _ _ _ _ _ Hb) as [(E & -> & _)|(Hnb & Hb')]; try congruence.
       + exfalso. destruct (can_win t) eqn:Ec.
         * apply Hnb. exact (Iwin _ _ _ _ Hi Hb' Ec Hcb).
-        * destruct (Fwin eq_refl Hca) as [He Hct]. apply Hnb.
-          exact (Icrit He _ _ _ _ Hi Hb' Hct (can_win_crit _ Hcb)).
+        * destruct (Fwin eq_refl Hca) as [He [Hct|Hcl]].
+          { apply Hnb. exact (Icrit He _ _ _ _ Hi Hb' Hct (can_win_crit _ Hcb)). }
+          { pose proof (can_win_crit _ Hcb) as Hx. rewrite (Ifree He Hcl _ _ Hb') in Hx. discriminate. }
       + exfalso. subst b. destruct (can_win t) eqn:Ec.
         * apply Hna. exact (Iwin _ _ _ _ Hi Ha' Ec Hca).
-        * destruct (Fwin eq_refl Hcb) as [He Hct]. apply Hna.
-          exact (Icrit He _ _ _ _ Hi Ha' Hct (can_win_crit _ Hca)).
+        * destruct (Fwin eq_refl Hcb) as [He [Hct|Hcl]].
+          { apply Hna. exact (Icrit He _ _ _ _ Hi Ha' Hct (can_win_crit _ Hca)). }
+          { pose proof (can_win_crit _ Hca) as Hx. rewrite (Ifree He Hcl _ _ Ha') in Hx. discriminate. }
       + exact (Iwin _ _ _ _ Ha' Hb' Hca Hcb).
     - (* ownership *)
       assert (Hlen : i < length (snd s)) by (apply nth_error_Some; congruence).
@@ -304,7 +308,7 @@ Section Inv.
     { intros m Hm. destruct (Iown m Hm) as (k & t & Hk & Hid & Hrec & _).
       destruct (Hdone t (nth_error_In _ _ Hk)) as [r Hr]. exists k, t.
       unfold has_rec in Hrec. rewrite Hr in Hrec.
-      destruct (l_kind t) eqn:Ek; try discriminate. destruct r as [m0| | |e|]; try discriminate.
+      destruct (l_kind t) eqn:Ek; try discriminate. destruct r as [m0| | | |e|]; try discriminate.
       destruct (Iok _ _ _ Hk Hr) as [-> Hw]. rewrite Hid in *. tauto. }
     split.
     - apply (length_le_1 m_id); [exact Indup|]. intros a b Ha Hb.
@@ -335,6 +339,66 @@ Section Inv.
     intros H m Hm. destruct (inv_all s sched H) as [_ _ _ _ Iown _ _].
     destruct (Iown m Hm) as (k & t & Hk & Hid & _ & (ok & Hkind) & Ht & Ha).
     split; [exact Ht|]. split; [exact Ha|]. exists t, ok. split; [eapply nth_error_In; exact Hk|tauto].
+  Qed.
+
+  (* ---------- revocation against activation ---------- *)
+
+  (* the call returned success after writing the code record: a successful activation, or a revocation that wrote
+     the revoked record (RGone — nil returned because the code had already expired and vanished — writes nothing) *)
+  Definition won (t : lo) : Prop :=
+    (l_kind t = KRev /\ l_pc t = PDone RRevoked) \/ exists m, l_pc t = PDone (ROk m).
+
+  (* at most one call on a code ever wins: activations and revocations exclude each other (and themselves),
+     for every schedule, faults and expiry included *)
+  Theorem one_winner s sched : start_ok s ->
+    forall i j ti tj,
+      nth_error (snd (srun s sched)) i = Some ti -> nth_error (snd (srun s sched)) j = Some tj ->
+      won ti -> won tj -> i = j.
+  Proof.
+    intros H i j ti tj Hi Hj Wi Wj. destruct (inv_all s sched H) as [_ _ _ Iwin _ _ Iok].
+    assert (W : forall k t, nth_error (snd (srun s sched)) k = Some t -> won t -> can_win t = true).
+    { intros k t Hk [[Hkind Hpc]|[m Hpc]].
+      - unfold can_win. rewrite Hkind, Hpc. reflexivity.
+      - apply (Iok _ _ _ Hk Hpc). }
+    exact (Iwin _ _ _ _ Hi Hj (W _ _ Hi Wi) (W _ _ Hj Wj)).
+  Qed.
+
+  Theorem revoke_activation_exclusive s sched : start_ok s ->
+    forall tr ta m, In tr (snd (srun s sched)) -> In ta (snd (srun s sched)) ->
+      l_kind tr = KRev -> l_pc tr = PDone RRevoked -> l_pc ta = PDone (ROk m) -> False.
+  Proof.
+    intros H tr ta m Hr Ha Hk Hpr Hpa.
+    apply In_nth_error in Hr. destruct Hr as [i Hi]. apply In_nth_error in Ha. destruct Ha as [j Hj].
+    assert (i = j) by (apply (one_winner s sched H i j tr ta Hi Hj); [left; tauto | right; eauto]). subst j.
+    assert (tr = ta) by congruence. subst ta. congruence.
+  Qed.
+
+  Lemma claim_held_turns_away t s0 l la ok :
+    l_kind t = KAct l la ok -> l_pc t = PClaim -> claim s0 = true ->
+    snd (step t s0) = s0 /\ exists e, l_pc (fst (step t s0)) = PDone (RErr e).
+  Proof.
+    intros Hkt Hpt Hc. unfold tstep, act_step. rewrite Hkt, Hpt.
+    destruct (l_fault t) as [[|k]|]; cbn [tick_fault]; try rewrite Hc;
+      (split; [reflexivity|eexists; reflexivity]).
+  Qed.
+
+  (* while the activation period lasts, a completed revocation keeps the claim: an activator that read the code
+     BEFORE the revocation and reaches its Claim step AFTER it is turned away without touching the store *)
+  Theorem revoked_at_claim_never_creates s sched : start_ok s ->
+    expired (fst (srun s sched)) = false ->
+    (exists tr, In tr (snd (srun s sched)) /\ l_kind tr = KRev /\ l_pc tr = PDone RRevoked) ->
+    claim (fst (srun s sched)) = true /\
+    forall t l la ok, l_kind t = KAct l la ok -> l_pc t = PClaim ->
+      snd (step t (fst (srun s sched))) = fst (srun s sched) /\
+      exists e, l_pc (fst (step t (fst (srun s sched)))) = PDone (RErr e).
+  Proof.
+    intros H Hexp (tr & Hin & Hk & Hp). destruct (inv_all s sched H) as [_ Ifree _ _ _ _ _].
+    assert (Hc : claim (fst (srun s sched)) = true).
+    { apply not_false_iff_true. intros E.
+      apply In_nth_error in Hin. destruct Hin as [i Hi].
+      assert (X := Ifree Hexp E _ _ Hi). unfold crit in X. rewrite Hk, Hp in X. discriminate. }
+    split; [exact Hc|].
+    intros t l la ok Hkt Hpt. exact (claim_held_turns_away t _ l la ok Hkt Hpt Hc).
   Qed.
 
   (* ---------- dead codes ---------- *)
@@ -464,4 +528,24 @@ Proof.
   - intros [|[|i]] [|[|j]] ti tj Hi Hj He; cbn in Hi, Hj; try reflexivity;
       try (destruct i; discriminate); try (destruct j; discriminate);
       inversion Hi; inversion Hj; subst; cbn in He; discriminate.
+Qed.
+
+(* the schedule of the revoke race: the activator reads the code, the revocation runs to completion, the activator
+   goes on — on the repaired code the activator is turned away at its claim and the record stays revoked *)
+Definition act_and_rev : list lo := [init_lo 0 (KAct 101 0 true) false None; init_lo 1 KRev false None].
+Lemma current_revoke_race_activation_refused :
+  let s := run sh lo (tstep Current P0) (s0 act_and_rev) ([0] ++ repeat 1 4 ++ repeat 0 12) in
+  finished (snd s) = true /\ oks (snd s) = 0 /\ errs (snd s) = 1 /\ mains (fst s) = [] /\
+  by_code (fst s) = Some {| c_act := false; c_rev := true; c_by := 0; c_map := 0 |}.
+Proof. vm_compute. repeat split. Qed.
+
+(* the tree as found: same schedule, the revoked code is activated and the revoked flag is overwritten *)
+Lemma pinned_revoke_race_refuted :
+  let s := run sh lo (tstep Pinned P0) (s0 act_and_rev) ([0] ++ repeat 1 4 ++ repeat 0 12) in
+  finished (snd s) = true /\ oks (snd s) = 1 /\ length (mains (fst s)) = 1 /\
+  (exists t, In t (snd s) /\ l_pc t = PDone RRevoked) /\
+  by_code (fst s) = Some {| c_act := true; c_rev := false; c_by := 101; c_map := 1 |}.
+Proof.
+  vm_compute. split; [reflexivity|]. split; [reflexivity|]. split; [reflexivity|]. split; [|reflexivity].
+  eexists. split; [right; left; reflexivity|reflexivity].
 Qed.
